@@ -82,7 +82,7 @@ FULL_LIMIT = {"quick": 5, "thorough": 99}
 TIER = ["quick"]
 
 
-def _cond(name, old_spec, new_spec, group, timeout=900, twin=False, bounds=""):
+def _cond(name, old_spec, new_spec, group, timeout=900, twin=False, bounds="", pre=None):
     old_src, new_src = S.src(old_spec), S.src(new_spec)
     names = list(dict.fromkeys(S.leaves(old_spec) + S.leaves(new_spec)))
     full = len(names) <= FULL_LIMIT[TIER[0]]
@@ -92,7 +92,7 @@ def _cond(name, old_spec, new_spec, group, timeout=900, twin=False, bounds=""):
     """
     if not bounds:
         bounds = f"previous content `{old_src}`, observed `{new_src}`, all leaves symbolic ints" + ("; earlier possibly-failing snapshot and later empty snapshot in the same test" if full else "; single snapshot in the test")
-    fn = mkfn(name + ("_twin" if twin else ""), params, body, GLB, post="not _" if twin else "_")
+    fn = mkfn(name + ("_twin" if twin else ""), params, body, GLB, pre=pre, post="not _" if twin else "_")
     return Cond(name + ("_twin" if twin else ""), fn, timeout=60 if twin else timeout, twin=twin, group=group,
                 bounds=bounds)
 
@@ -116,6 +116,12 @@ def conditions(tier):
     # 1. sequences
     for no in range(N + 1):
         for nn in range(N + 1):
+            if no + nn >= 7:
+                # the largest cells are split by two equality predicates (4 conditions, only for parallelism / time budget)
+                for i, p in enumerate(["c0 == n0 and c1 == n1", "c0 == n0 and c1 != n1", "c0 != n0 and c1 == n0", "c0 != n0 and c1 != n0"]):
+                    conds.append(_cond(f"list{no}_list{nn}_s{i}", S.L(*cn(no)), S.L(*cn(nn, "n")), "seq", timeout=2400, pre=[p],
+                                       bounds=f"previous list of {no}, observed list of {nn} symbolic ints, case split {i}: {p}"))
+                continue
             conds.append(_cond(f"list{no}_list{nn}", S.L(*cn(no)), S.L(*cn(nn, "n")), "seq"))
     NT_ = 2 if q else 3
     for no in range(NT_ + 1):
@@ -173,7 +179,8 @@ def conditions(tier):
     conds.append(_cond("nest_q", S.C("Q", p=S.C("P", a="c0"), n="c1"), S.C("Q", p=S.C("P", a="n0", b="n1"), n="n2"), "nested"))
     conds.append(_cond("nest_lt", S.L(S.T("c0"), "c1"), S.L(S.T("n0", "n1"), "n2"), "nested"))
     if not q:
-        conds.append(_cond("nest_ll22", S.L(S.L("c0", "c1"), S.L("c2", "c3")), S.L(S.L("n0", "n1"), S.L("n2", "n3")), "nested"))
+        for i, p in enumerate(["c0 == n0", "c0 != n0 and c0 == n2", "c0 != n0 and c0 != n2"]):
+            conds.append(_cond(f"nest_ll22_s{i}", S.L(S.L("c0", "c1"), S.L("c2", "c3")), S.L(S.L("n0", "n1"), S.L("n2", "n3")), "nested", timeout=2400, pre=[p]))
         conds.append(_cond("nest_dd", S.D(("1", S.D(("1", "c0"))), ("2", "c1")), S.D(("1", S.D(("2", "n0"))), ("3", "n1")), "nested"))
     conds.append(_cond("list2_list2", S.L("c0", "c1"), S.L("n0", "n1"), "seq", twin=True))
     conds.append(_cond("dc_kw_ab_abc", call_olds["kw_ab"], call_news["abc"], "dataclass", twin=True))
